@@ -58,6 +58,13 @@ def run(tier: str, seed: int) -> int:
     for job, r in rejected:
         run_.violation(r["clause"], "search-loop/" + job["sig"], {"reject": r, "trace": {"tid": job["tid"], "events": job["events"]}, "universe": job["universe"]})
     run_.extra["search_loops_validated_against_Search_tla"] = len(jobs)
+    # universe G: generated rule tables (any hypergraph of rules, empty / verified classes anywhere, shifts of both signs) realised as
+    # real classes and strategies; the table handed to TLC is the generated one, not what the strategies answer when re-applied
+    gjobs, grejected, gmc = searchmodel.table_campaign(run_, tier, seed)
+    for job, r in grejected:
+        run_.violation(r["clause"], "search-loop/" + job["sig"], {"reject": r, "trace": {"tid": job["tid"], "events": job["events"]}, "universe": job["universe"]})
+    run_.extra["generated_table_universes_validated_against_Search_tla"] = len(gjobs)
+    run_.extra["generated_table_universes_model_checked_for_all_slicings"] = gmc
     run_.extra["universes_model_checked_for_all_slicings"] = nmc
     run_.rule = ("one trace per search of the campaign (start classes x packs x rule-db flavours x time-slicings, seeded subset in "
                  "the quick tier); every rule insertion and class-db call is an event; non-trivial = a search in which an empty "
